@@ -236,7 +236,7 @@ pub fn render(t: &[char], style: u8, ctx: u8, ch: &mut Ch) -> Option<(String, us
         2 => "#aaaaaaaaaaaa\n",
         _ => "#aaaaaaaaaaaaa\n",
     };
-    let body = present(t, style, ci, oneline, flow, ctx == 0, ch)?;
+    let body = present(t, style, ci, oneline, flow, ctx == 0 || ctx == 2, ch)?;
     let q = match style {
         1 => "'",
         2 => "\"",
